@@ -132,7 +132,7 @@ FStep(f, bl, cfg, now, op) ==
 
 \* ------------------------------------------------------------------ RecvHandler::handle_inbound (recv.rs)
 \* exp: the sources a response is expected from (the handler's filter_expected_responses map): their datagrams bypass both
-\* stages.  kind: "msg" (decodes and names the node id nd), "way" (decodes, a WHOAREYOU names no sender), "junk" (does not decode)
+\* stages.  kind: "msg" / "hs" (decodes and names the node id nd: message and handshake packets), "way" (decodes, a WHOAREYOU names no sender), "junk" (does not decode)
 HandleInbound(f, bl, cfg, now, exp, ip, kind, nd) ==
   LET permitted == ip \in exp
       a == IF permitted THEN [f |-> f, bl |-> bl, ret |-> "pass"] ELSE InitialPass(f, bl, cfg, now, ip) IN
@@ -237,7 +237,7 @@ FViols(arr, cfg) ==
 \* that dropped it.  arr: [t, w |-> 1, ip, node (0: names none), out, sol (a response was expected from the source: solicited),
 \*                         pIp, bIp, pNode, bNode, ipBan, nodeBan, sh]
 REntry(op, now, exp, pre, post, ret, sh) ==
-  LET nd == IF op.kind = "msg" THEN op.node ELSE 0 IN
+  LET nd == IF op.kind \in {"msg", "hs"} THEN op.node ELSE 0 IN
   [t |-> now, w |-> 1, ip |-> op.ip, node |-> nd, out |-> ret[1], sol |-> op.ip \in exp,
    pIp |-> op.ip \in pre.pi, bIp |-> Has(pre.bi, op.ip), pNode |-> nd \in pre.pn, bNode |-> Has(pre.bn, nd),
    ipBan |-> {p[2] : p \in {x \in post.bi : x[1] = op.ip}}, nodeBan |-> {p[2] : p \in {x \in post.bn : x[1] = nd}},
